@@ -297,6 +297,21 @@ def _rewrite_block(body: List[ast.stmt], in_function: bool, stats: Dict[str, int
             ast.copy_location(new, st)
             stats["annotation"] += 1
             st = new
+        if in_function and isinstance(st, ast.Assign) and len(st.targets) == 1 and isinstance(st.targets[0], ast.Name) and isinstance(st.value, ast.Dict) and len(st.value.keys) >= 2 \
+                and st.value.keys[0] is None and isinstance(st.value.values[0], ast.Name) and all(k is not None for k in st.value.keys[1:]) \
+                and not any(_mentions(v, st.targets[0].id) for v in st.value.values):
+            # `X = {**Y, k: v}`  ->  `X = Y.copy(); X[k] = v`
+            X = st.targets[0].id
+            first = ast.Assign(targets=[st.targets[0]], value=ast.Call(func=ast.Attribute(value=st.value.values[0], attr="copy", ctx=ast.Load()), args=[], keywords=[]), type_comment=None)
+            new_sts = [first]
+            for k, v in zip(st.value.keys[1:], st.value.values[1:]):
+                new_sts.append(ast.Assign(targets=[ast.Subscript(value=ast.Name(id=X, ctx=ast.Load()), slice=k, ctx=ast.Store())], value=v, type_comment=None))
+            for n_ in new_sts:
+                ast.copy_location(n_, st)
+                ast.fix_missing_locations(n_)
+            body[i:i + 1] = new_sts
+            stats["dictsplat"] += 1
+            continue
         if in_function and isinstance(st, ast.Expr) and isinstance(st.value, ast.YieldFrom) and isinstance(st.value.value, ast.GeneratorExp):
             # `yield from (e for t in it if c)`  ->  for t in it: if c: yield e
             g = st.value.value
@@ -367,6 +382,32 @@ def _rewrite_block(body: List[ast.stmt], in_function: bool, stats: Dict[str, int
             body.append(new)
             stats["guard"] += 1
             continue
+        if in_function and isinstance(st, ast.If) and st.orelse and i + 1 < len(body) and isinstance(body[i + 1], (ast.Return, ast.Assign, ast.Expr)):
+            # function-valued conditional: `if c: f = A else: f = B ; return f(args)`  ->  the call moves into both branches
+            nxt = body[i + 1]
+            la, lb = st.body[-1], st.orelse[-1]
+            if isinstance(la, ast.Assign) and isinstance(lb, ast.Assign) and len(la.targets) == 1 and len(lb.targets) == 1 and isinstance(la.targets[0], ast.Name) \
+                    and isinstance(lb.targets[0], ast.Name) and la.targets[0].id == lb.targets[0].id and len(st.body) == 1 and len(st.orelse) == 1:
+                f = la.targets[0].id
+                v = nxt.value
+                if isinstance(v, ast.Await):
+                    v = v.value
+                uses = [n for x in body[i + 1:] for n in ast.walk(x) if isinstance(n, ast.Name) and n.id == f]
+                if isinstance(v, ast.Call) and isinstance(v.func, ast.Name) and v.func.id == f and len(uses) == 1 and not _mentions(st.test, f) \
+                        and isinstance(la.value, (ast.Name, ast.Attribute)) and isinstance(lb.value, (ast.Name, ast.Attribute)):
+                    import copy as _copy
+
+                    def with_callee(callee):
+                        s2 = _copy.deepcopy(nxt)
+                        for n in ast.walk(s2):
+                            if isinstance(n, ast.Call) and isinstance(n.func, ast.Name) and n.func.id == f:
+                                n.func = _copy.deepcopy(callee)
+                        return s2
+                    st.body = [with_callee(la.value)]
+                    st.orelse = [with_callee(lb.value)]
+                    del body[i + 1]
+                    stats["sinkcall"] += 1
+                    continue
         if in_function and isinstance(st, ast.If) and i + 1 < len(body) and isinstance(body[i + 1], ast.Return) and isinstance(body[i + 1].value, ast.Name) and i + 2 == len(body):
             # single exit: `if a: r = X elif b: r = Y else: r = Z ; return r`  ->  each branch returns
             r = body[i + 1].value.id
@@ -426,7 +467,7 @@ def _walk(node: ast.AST, in_function: bool, stats: Dict[str, int], fn) -> None:
 
 
 def normalise_tree(tree: ast.Module) -> Dict[str, int]:
-    stats = {"docstring": 0, "logging": 0, "else": 0, "tempreturn": 0, "annotation": 0, "ifexp": 0, "loop2comp": 0, "setupdate": 0, "flip": 0, "anyall": 0, "sink": 0, "guard": 0, "yieldfrom": 0}
+    stats = {"docstring": 0, "logging": 0, "else": 0, "tempreturn": 0, "annotation": 0, "ifexp": 0, "loop2comp": 0, "setupdate": 0, "flip": 0, "anyall": 0, "sink": 0, "guard": 0, "yieldfrom": 0, "sinkcall": 0, "dictsplat": 0}
     _walk(tree, False, stats, None)
     for n in ast.walk(tree):
         if isinstance(n, (ast.FunctionDef, ast.AsyncFunctionDef)):
@@ -544,4 +585,51 @@ def fold_constants(repo) -> int:
         ast.fix_missing_locations(m.tree)
         m.constants_folded = count[0]
         total += count[0]
+    total += _unused_new_parameters(repo, table)
     return total
+
+
+def _unused_new_parameters(repo, table) -> int:
+    """a parameter that does not exist on the pinned tree, has a constant default and is passed by no call in the
+    repository always has that default: its reads are replaced by the default (the generator's behaviour is what the
+    properties are about; the parameter itself stays in the signature)"""
+    from .canon import pinned as _pinned
+    psigs = _pinned().get("sigs", {})
+    n = 0
+    calls_by_name: Dict[str, list] = {}
+    for m in repo.modules.values():
+        for c in ast.walk(m.tree):
+            if isinstance(c, ast.Call):
+                nm = c.func.attr if isinstance(c.func, ast.Attribute) else c.func.id if isinstance(c.func, ast.Name) else None
+                if nm:
+                    calls_by_name.setdefault(nm, []).append(c)
+    for m in repo.modules.values():
+        for fi in m.functions.values():
+            fn = fi.node
+            old = psigs.get(fn.name)
+            if not old or len(old) != 1:
+                continue
+            known = set(old[0]["pos"]) | set(old[0]["kwonly"])
+            a = fn.args
+            pos = a.posonlyargs + a.args
+            defaults = dict(zip([x.arg for x in pos[len(pos) - len(a.defaults):]], a.defaults))
+            defaults.update({x.arg: d for x, d in zip(a.kwonlyargs, a.kw_defaults) if d is not None})
+            for p, d in defaults.items():
+                if p in known or not isinstance(d, (ast.Constant, ast.Tuple)) or (isinstance(d, ast.Tuple) and not all(isinstance(e, ast.Constant) for e in d.elts)):
+                    continue
+                cs = calls_by_name.get(fn.name, [])
+                idx = [x.arg for x in pos].index(p) - (1 if fi.cls is not None and pos and pos[0].arg in ("self", "cls") else 0) if p in [x.arg for x in pos] else None
+                passed = any(any(k.arg == p or k.arg is None for k in c.keywords) or any(isinstance(x, ast.Starred) for x in c.args) or (idx is not None and len(c.args) > idx) for c in cs)
+                stored = any(isinstance(x, ast.Name) and x.id == p and isinstance(x.ctx, (ast.Store, ast.Del)) for x in ast.walk(fn))
+                if passed or stored:
+                    continue
+                import copy as _copy
+
+                class R(ast.NodeTransformer):
+                    def visit_Name(self, node):
+                        if node.id == p and isinstance(node.ctx, ast.Load):
+                            return ast.copy_location(_copy.deepcopy(d), node)
+                        return node
+                fn.body = [R().visit(x) for x in fn.body]
+                n += 1
+    return n
